@@ -430,6 +430,8 @@ func isEffectFree(name string) bool {
 		"context.WithCancel", "context.WithTimeout", "context.WithDeadline", "context.WithValue", "context.WithoutCancel",
 		"(*encoding/base64.Encoding).DecodeString", "(*encoding/base64.Encoding).EncodeToString",
 		"google.golang.org/grpc/metadata.NewIncomingContext", "google.golang.org/grpc/status.FromError",
+		// xDS dependency manager: registers a cluster subscription inside the manager, returns the unsubscribe function
+		"(*google.golang.org/grpc/internal/xds/xdsdepmgr.DependencyManager).SubscribeToCluster",
 	} {
 		if strings.HasPrefix(name, p) {
 			return true
